@@ -124,7 +124,7 @@ func c20NewIter(b c20Box, kind string) *c20Iter {
 func c20Scenario(r *kit.Run, idx int64, rng *rand.Rand) {
 	kind := c20Kinds[int(idx)%len(c20Kinds)]
 	withRemoval := rng.IntN(3) == 0
-	twoIters := kind == "queue-iter" && rng.IntN(4) == 0
+	twoIters := kind == "queue-iter" && rng.IntN(2) == 0
 	procs := kit.ProcsFor(idx / int64(len(c20Kinds)))
 	var box c20Box
 	if kind == "queue-iter" {
@@ -180,6 +180,7 @@ func c20Scenario(r *kit.Run, idx int64, rng *rand.Rand) {
 	}
 	name := func(i int) string { return fmt.Sprintf("it%d", i) }
 	failed := false
+	var parkOrder []int // iterators whose current step is parked, oldest first
 	viol := func(kindv, detail string, cs *kit.Census) {
 		failed = true
 		var w any
@@ -194,6 +195,12 @@ func c20Scenario(r *kit.Run, idx int64, rng *rand.Rand) {
 	accept := func(i int, res c20Res) {
 		it := its[i]
 		it.pending = false
+		for k, x := range parkOrder {
+			if x == i {
+				parkOrder = append(parkOrder[:k:k], parkOrder[k+1:]...)
+				break
+			}
+		}
 		if res.pan != "" {
 			viol("panic", fmt.Sprintf("%s panicked: %s", name(i), res.pan), nil)
 			return
@@ -324,13 +331,48 @@ func c20Scenario(r *kit.Run, idx int64, rng *rand.Rand) {
 				continue // accept() judged the value / error
 			}
 			r.Count("steps_observed_parked", 1)
+			already := false
+			for _, x := range parkOrder {
+				if x == i {
+					already = true
+				}
+			}
+			if !already {
+				parkOrder = append(parkOrder, i)
+			}
 		}
 	}
 
 	kit.WithProcs(procs, func() {
 		steps := 4 + rng.IntN(14)
+		if twoIters && rng.IntN(2) == 0 {
+			// preamble: both iterators catch up and park behind the tail
+			for i := range its {
+				for k := 0; k <= len(added) && !failed && inconclusive == ""; k++ {
+					if its[i].pending || its[i].finished {
+						break
+					}
+					its[i].pending = true
+					its[i].req <- struct{}{}
+					script = append(script, name(i)+".next")
+					settle()
+				}
+			}
+		}
 		for s := 0; s < steps && !failed && inconclusive == ""; s++ {
-			switch c := []int{0, 0, 0, 0, 1, 1, 1, 2, 3, 4}[rng.IntN(10)]; c {
+			act := []int{0, 0, 0, 0, 1, 1, 1, 2, 3, 4}[rng.IntN(10)]
+			if np := len(parkOrder); np >= 2 && rng.IntN(2) == 0 {
+				act = 5 // several iterators are parked on the same condition: cancel the one that parked last
+			}
+			switch c := act; c {
+			case 5:
+				i := parkOrder[len(parkOrder)-1]
+				if its[i].ctx.Err() != nil || !its[i].pending {
+					break
+				}
+				its[i].cancel()
+				script = append(script, name(i)+".cancel (youngest parked)")
+				settle()
 			case 0: // iterator step
 				i := rng.IntN(len(its))
 				it := its[i]
